@@ -511,10 +511,18 @@ impl BackgroundQueueJoinHandle {
 impl Drop for BackgroundQueueJoinHandle {
     fn drop(&mut self) {
         if let Some(handle) = self.handle.take() {
+            #[cfg(metrique_verif)]
+            verif::sync_point("join.store", 0);
             self.shutdown_signal.store(true, Ordering::Relaxed);
+            #[cfg(metrique_verif)]
+            verif::sync_point("join.unpark", 0);
             self.unparker.unpark();
             tracing::info!("awaiting background metrics queue shutdown");
+            #[cfg(metrique_verif)]
+            verif::sync_point("join.join", 0);
             handle.join().unwrap();
+            #[cfg(metrique_verif)]
+            verif::sync_point("join.done", 0);
             tracing::info!("background metrics queue shut down");
         }
     }
@@ -524,6 +532,8 @@ impl<E> Inner<E> {
     fn push(&self, entry: E) {
         // force_push causes the oldest entry to be dropped if the queue is full. We want this since the more recent
         // metrics are more valuable when describing the state of the service!
+        #[cfg(metrique_verif)]
+        verif::sync_point("push.force", 0);
         if self.queue.force_push(entry).is_some() {
             if let Some(recorder) = self.recorder.as_ref() {
                 recorder.increment_counter("metrique_queue_overflows", &self.name, 1);
@@ -537,12 +547,18 @@ impl<E> Inner<E> {
         }
         // Note that we're not enormously concerned about the ordering guarantees between the queue push and the unpark
         // signal. That's because the writer thread will at most wait for flush_interval before waking itself up.
+        #[cfg(metrique_verif)]
+        verif::sync_point("push.unpark", 0);
         self.unparker.unpark();
     }
 
     fn flush_async(&self) -> FlushWait {
         let (channel, receiver) = tokio::sync::oneshot::channel();
+        #[cfg(metrique_verif)]
+        verif::sync_point("flush.send", 0);
         self.flush_queue_sender.send(FlushSignal { channel }).ok();
+        #[cfg(metrique_verif)]
+        verif::sync_point("flush.unpark", 0);
         self.unparker.unpark();
         FlushWait::from_future(async move {
             let _ = receiver.await;
@@ -632,9 +648,16 @@ impl WakerTracker {
         // We can get to this `if` either if there are no wakers initially, or if the wakers
         // have just been woken up.
         if self.waiting_wakers.is_empty() {
+            #[cfg(metrique_verif)]
+            verif::sync_point("w.recv", verif::pack(0, self.entries_before_wake));
             while let Ok(entry) = self.flush_queue_receiver.try_recv() {
                 // move all flush wakers from the receiver to the queue
                 self.waiting_wakers.push(entry);
+                #[cfg(metrique_verif)]
+                verif::sync_point(
+                    "w.recv",
+                    verif::pack(self.waiting_wakers.len(), self.entries_before_wake),
+                );
             }
 
             if !self.waiting_wakers.is_empty() {
@@ -667,17 +690,32 @@ impl<S: EntryIoStream, E: Entry> Receiver<S, E> {
             loop {
                 let (status, entry_count) = self.drain_until_deadline(next_flush);
 
+                #[cfg(metrique_verif)]
+                verif::sync_point(
+                    "w.handle",
+                    verif::pack((status == DrainResult::HitDeadline) as usize, entry_count),
+                );
                 waker_tracker.handle_waiting_wakers(
                     || inner.queue.capacity(),
                     || self.flush_stream(),
                     status,
                     entry_count,
                 );
+                #[cfg(metrique_verif)]
+                verif::sync_point(
+                    "w.handled",
+                    verif::pack(
+                        waker_tracker.waiting_wakers.len(),
+                        waker_tracker.entries_before_wake,
+                    ),
+                );
 
                 if status == DrainResult::HitDeadline {
                     break; // Hit deadline, flush stream
                 }
 
+                #[cfg(metrique_verif)]
+                verif::sync_point("w.check_sd1", 0);
                 if self.shutdown_signal.load(Ordering::Relaxed) {
                     break; // shut down, break out of loop to have a chance to flush stream
                 }
@@ -685,6 +723,8 @@ impl<S: EntryIoStream, E: Entry> Receiver<S, E> {
                 // if the waker tracker can make progress observing an empty queue, let it
                 if !waker_tracker.will_progress_on_drained_queue() {
                     let park_start = Instant::now();
+                    #[cfg(metrique_verif)]
+                    verif::sync_point("w.park", 0);
                     self.parker.park_deadline(next_flush);
                     if self.inner.recorder.is_some() {
                         idle_duration += park_start.elapsed();
@@ -693,11 +733,15 @@ impl<S: EntryIoStream, E: Entry> Receiver<S, E> {
 
                 // If we did make it to the next flush deadline, flush, else someone woke us up and we'll continue
                 // writing.
+                #[cfg(metrique_verif)]
+                verif::sync_point("w.check_time", 0);
                 if Instant::now() >= next_flush {
                     break;
                 }
             }
 
+            #[cfg(metrique_verif)]
+            verif::sync_point("w.outer_flush", 0);
             self.flush_stream();
             if let Some(recorder) = &self.inner.recorder {
                 let queue_len = self.inner.queue.len().try_into().unwrap_or(u32::MAX);
@@ -712,10 +756,14 @@ impl<S: EntryIoStream, E: Entry> Receiver<S, E> {
                 recorder.record_histogram("metrique_idle_percent", &self.inner.name, idle_percent);
                 recorder.record_histogram("metrique_queue_len", &self.inner.name, queue_len);
             }
+            #[cfg(metrique_verif)]
+            verif::sync_point("w.check_sd2", 0);
             if self.shutdown_signal.load(Ordering::Relaxed) {
                 tracing::info!("caught shutdown signal, shutting down background metrics queue");
                 return self.shut_down();
             }
+            #[cfg(metrique_verif)]
+            verif::sync_point("w.check_app", 0);
             if Arc::get_mut(&mut self.inner).is_some() {
                 tracing::info!("no appenders left, shutting down background metrics queue");
                 return self.shut_down();
@@ -729,6 +777,8 @@ impl<S: EntryIoStream, E: Entry> Receiver<S, E> {
         // a reasonably accurate flush interval. Instead, we'll check the clock every 32 entries if we're still seeing
         // entries remaining in the queue.
         let mut count = 0usize;
+        #[cfg(metrique_verif)]
+        verif::sync_point("w.pop", 0);
         while let Some(entry) = self.inner.queue.pop() {
             self.consume(entry);
 
@@ -736,6 +786,8 @@ impl<S: EntryIoStream, E: Entry> Receiver<S, E> {
             if count.is_multiple_of(32) && Instant::now() >= deadline {
                 return (DrainResult::HitDeadline, count);
             }
+            #[cfg(metrique_verif)]
+            verif::sync_point("w.pop", count as u64);
         }
 
         (DrainResult::Drained, count)
@@ -764,6 +816,8 @@ impl<S: EntryIoStream, E: Entry> Receiver<S, E> {
     }
 
     fn consume(&mut self, entry: E) {
+        #[cfg(metrique_verif)]
+        verif::sync_point("w.consume", 0);
         match self.stream.next(&entry) {
             Ok(()) => {
                 self.metrics_emitted += 1;
@@ -821,9 +875,15 @@ impl<S: EntryIoStream, E: Entry> Receiver<S, E> {
         if status == DrainResult::HitDeadline {
             tracing::warn!("unable to drain metrics queue while shutting down");
         }
+        #[cfg(metrique_verif)]
+        verif::sync_point("w.sd_flush", (status == DrainResult::HitDeadline) as u64);
         self.flush_stream();
+        #[cfg(metrique_verif)]
+        verif::sync_point("w.sd_drop", 0);
         drop(self.stream); // Close the file before we report we're done!
         tracing::info!("background metric log writing has shut down");
+        #[cfg(metrique_verif)]
+        verif::sync_point("w.exit", 0);
     }
 }
 
@@ -850,6 +910,100 @@ pub fn describe_sink_metrics<V: GlobalRecorderVersion + ?Sized>() {
 enum DrainResult {
     Drained,     // no entries left in the queue
     HitDeadline, // some entries left, but we're now past the deadline
+}
+
+/// Verification hooks (compiled only with `--cfg metrique_verif`): named synchronisation points in front of
+/// every shared-memory operation of the queue, so that an external controller can serialise the threads,
+/// and a thin driver around the private `WakerTracker`.
+#[cfg(metrique_verif)]
+pub mod verif {
+    use super::*;
+    use std::sync::RwLock;
+
+    /// Controller called at every synchronisation point with the point's name and a data word.
+    pub type Controller = dyn Fn(&'static str, u64) + Send + Sync;
+
+    static CONTROLLER: RwLock<Option<Arc<Controller>>> = RwLock::new(None);
+
+    /// Install (or remove) the process-wide controller.
+    pub fn install(controller: Option<Arc<Controller>>) {
+        *CONTROLLER.write().unwrap() = controller;
+    }
+
+    pub(super) fn pack(hi: usize, lo: usize) -> u64 {
+        ((hi as u64) << 32) | (lo as u64 & 0xffff_ffff)
+    }
+
+    pub(super) fn sync_point(name: &'static str, data: u64) {
+        let controller = CONTROLLER.read().unwrap().clone();
+        if let Some(controller) = controller {
+            controller(name, data);
+        }
+    }
+
+    /// Step-by-step access to the real `WakerTracker`.
+    pub struct WakerDriver {
+        tracker: WakerTracker,
+        sender: std::sync::mpsc::Sender<FlushSignal>,
+    }
+
+    impl Default for WakerDriver {
+        fn default() -> Self {
+            Self::new()
+        }
+    }
+
+    impl WakerDriver {
+        /// A tracker with an empty signal channel.
+        pub fn new() -> Self {
+            let (sender, receiver) = std::sync::mpsc::channel();
+            WakerDriver {
+                tracker: WakerTracker::new(receiver),
+                sender,
+            }
+        }
+
+        /// What `flush_async` sends; the returned receiver is closed when the waker is woken.
+        pub fn signal(&self) -> tokio::sync::oneshot::Receiver<()> {
+            let (channel, receiver) = tokio::sync::oneshot::channel();
+            self.sender.send(FlushSignal { channel }).ok();
+            receiver
+        }
+
+        /// One call of `handle_waiting_wakers`; returns (flush calls, capacity calls) it made.
+        pub fn handle(&mut self, capacity: usize, hit_deadline: bool, entry_count: usize) -> (u32, u32) {
+            let (mut flushes, mut capacities) = (0, 0);
+            self.tracker.handle_waiting_wakers(
+                || {
+                    capacities += 1;
+                    capacity
+                },
+                || flushes += 1,
+                if hit_deadline {
+                    DrainResult::HitDeadline
+                } else {
+                    DrainResult::Drained
+                },
+                entry_count,
+            );
+            (flushes, capacities)
+        }
+
+        /// `waiting_wakers.len()`
+        pub fn waiting(&self) -> usize {
+            self.tracker.waiting_wakers.len()
+        }
+
+        /// `entries_before_wake`
+        pub fn entries_before_wake(&self) -> usize {
+            self.tracker.entries_before_wake
+        }
+
+        /// `will_progress_on_drained_queue()`
+        pub fn will_progress(&mut self) -> bool {
+            self.tracker.will_progress_on_drained_queue()
+        }
+    }
 }
 
 #[cfg(test)]
